@@ -155,13 +155,20 @@ fn main() {
         let ops: Vec<String> = args[3..].to_vec();
         let s = sched::Sched::new(sched::Mode::Fixed);
         run::run_once(&s, move || {
-            let mut w = World::new(cfgs.clone(), props_seq::k4(), true, Checks::all());
+            let keys: Vec<Vec<u8>> = match std::env::var("DEVKEYS") {
+                Ok(k) => k.split(',').map(|x| x.as_bytes().to_vec()).collect(),
+                Err(_) => props_seq::k4(),
+            };
+            let mut w = World::new(cfgs.clone(), keys, std::env::var("DEVLAZY").is_err(), if std::env::var("DEVLAZY").is_err() { Checks::all() } else { Checks::default() });
             w.open().unwrap();
             for o in ops.iter() {
                 let n = || o[1..].parse::<u8>().unwrap_or(0);
                 let op = match &o[..1] {
                     "p" => Op::Put(n(), 0),
                     "d" => Op::Del(n()),
+                    "P" => Op::Put(n(), 3),
+                    "s" => Op::Snap,
+                    "C" => Op::Compact(Some(o.as_bytes()[1] - b'0'), Some(o.as_bytes()[2] - b'0')),
                     "b" => Op::Batch(o[1..].bytes().map(|c| (c - b'0', true)).collect()),
                     "f" => Op::Flush,
                     "c" => Op::Compact(None, None),
